@@ -12,6 +12,8 @@ import HealSparse.Model.Resolution
 import HealSparse.Props.C04
 import HealSparse.Props.C01
 import HealSparse.Props.C02
+import HealSparse.Lemmas.WFWorld
+import HealSparse.Lemmas.ApiDegrade
 namespace HS
 namespace C07
 
@@ -125,5 +127,829 @@ end Witness
 example : (degradeMap (V := Int) (W := Int) ⟨3, 1⟩ ⟨-1, fun x => x != -1⟩ ⟨#[4, -2, -2], #[-1, -1, 7, -1, 3, 9]⟩ 1
     (fun l => (l.filter (· != -1)).foldl (· + ·) 0) (-1)).sp = #[-1, 7, 12] := by decide +kernel
 
+/-! ## API level: `apiDegrade` (Model/ApiRes.lean)
+
+The theorems above are about the generic core functions.  The ones below are about
+`apiDegrade` itself — argument validation, dtype / sentinel rules, the re-housing below the
+coverage resolution, the error behaviour — for every map object that is `Ok`
+(`WF ∧ KindOk ∧ SentOK`, Lemmas/WFWorld.lean).  Helpers: Lemmas/ApiDegrade.lean.
+
+  api_degrade_same_order, api_degrade_layout, api_degrade_kind, outKind_rules
+                                  configuration, kind and sentinel of the result
+  api_degrade_value               THE VALUE, every kind, both paths (`coreRed` on `live` pixels)
+  api_degrade_coverage            coverage mask of the result
+  api_degrade_float / _masked / _sum_prod / _sum_prod_valid
+                                  float reductions over exactly the valid children; nansum of
+                                  nothing is 0, nanprod 1: where exactly that shows
+  api_degrade_wmean, wmeanOf_zero_weight
+                                  weighted mean; zero total weight
+  api_degrade_recd / _masked      record maps, field by field
+  api_degrade_andor_int, api_degrade_wide
+                                  `and` / `or`: the fold over ALL the children (F36)
+  api_degrade_andor_int_partial, api_degrade_wide_partial, api_degrade_or_zero_sentinel
+                                  what holds of the intended (masked) reduction
+  Witness.api_degrade_andor_masked_false, Witness.api_degrade_or_masked_false
+                                  the evaluated counterexamples; NEW: `or` is wrong too whenever
+                                  the sentinel is not 0 (e.g. the default int64 sentinel)
+  api_degrade_error_range, api_degrade_ok_iff, api_degrade_rejects, api_degrade_weight_errors
+                                  errors -/
+
+section api
+open ApiDegrade
+
+theorem weightsWF_of_ok {m : MapObj} {ordOut : Nat} {red : String} {w : Option MapObj}
+    (h : ∀ wm, w = some wm → wm.Ok) : WeightsWF m ordOut red w :=
+  fun _ _ wm hwm => (h wm hwm).1
+
+theorem weightsWF_of_not_wmean {m : MapObj} {ordOut : Nat} {red : String} {w : Option MapObj}
+    (h : (red == "wmean") = false) : WeightsWF m ordOut red w :=
+  fun _ h' => by rw [h] at h'; cases h'
+
+theorem weightsWF_of_inrange {m : MapObj} {ordOut : Nat} {red : String} {w : Option MapObj}
+    (h : m.covord ≤ ordOut) : WeightsWF m ordOut red w :=
+  fun h' => by omega
+
+/-- **`degrade` at the map's own resolution is a copy**: nothing is validated — not the
+    reduction name, not the weights (`degrade(nside_sparse, reduction='bogus')` succeeds, an
+    integer map stays an integer map whatever the reduction) -/
+theorem api_degrade_same_order {m : MapObj} (red : String) (w : Option MapObj) (h : m.Ok)
+    (hk : m.kind ≠ .packed) :
+    apiDegrade m m.spord red w = .ok { m with cache := none } :=
+  apiDegrade_same red w h.1.1 hk
+
+/-- **layout of the result** (every path): the result is again `Ok`, at sparse order `ordOut`
+    and coverage order `min covord ordOut`; a successful call has `ordOut ≤ spord` on a map that
+    is not bit-packed -/
+theorem api_degrade_layout {m m' : MapObj} {ordOut : Nat} {red : String} {w : Option MapObj}
+    (h : m.Ok) (hr : apiDegrade m ordOut red w = .ok m') :
+    m'.Ok ∧ m'.spord = ordOut ∧ m'.covord = min m.covord ordOut ∧ ordOut ≤ m.spord ∧
+      m.kind ≠ .packed := by
+  obtain ⟨hle, hk⟩ := apiDegrade_pre hr
+  refine ⟨Ok.apiDegrade h hr, ?_, ?_, hle, hk⟩
+  · by_cases he : ordOut = m.spord
+    · subst he
+      rw [apiDegrade_same red w h.1.1 hk] at hr
+      cases hr; rfl
+    · exact (apiDegrade_ok h.1 h.2.1.blankInvalid (by omega) hr).spord
+  · by_cases he : ordOut = m.spord
+    · subst he
+      rw [apiDegrade_same red w h.1.1 hk] at hr
+      cases hr
+      have := h.1.1
+      show m.covord = _
+      omega
+    · exact (apiDegrade_ok h.1 h.2.1.blankInvalid (by omega) hr).covord
+
+/-- **kind and sentinel of the result** (`ordOut < spord`), as a function of the source kind,
+    the reduction and the weight map (`coreOutKind`, `degradeSent`), together with what a
+    successful call implies: the kind accepts the reduction (`coreAccepts`), and a `wmean` came
+    with a floating-point weight map of the same sparse order (and the same coverage order
+    unless re-housed) -/
+theorem api_degrade_kind {m m' : MapObj} {ordOut : Nat} {red : String} {w : Option MapObj}
+    (h : m.Ok) (hlt : ordOut < m.spord) (hr : apiDegrade m ordOut red w = .ok m') :
+    m'.kind = coreOutKind m.kind red w ∧ m'.sent = degradeSent m ordOut red w ∧
+    coreAccepts m.kind red = true ∧
+    ((red == "wmean") = true → ∃ wm b, w = some wm ∧ wm.kind = .plain (.flt b) ∧
+      wm.spord = m.spord ∧ (m.covord ≤ ordOut → wm.covord = m.covord)) ∧
+    m'.view = (if ordOut < m.covord then none else m.view) := by
+  have D := apiDegrade_ok h.1 h.2.1.blankInvalid hlt hr
+  refine ⟨D.kind, D.sent, D.accepts, ?_, D.view⟩
+  intro hw
+  obtain ⟨wm, b, h1, h2, h3, h4⟩ := D.wts hw
+  exact ⟨wm, b, h1, h2, h3, fun hle => h4 (by omega)⟩
+
+/-- the dtype rules spelled out: integers and booleans become float64 (sentinel UNSEEN) under
+    every float reduction; float32 stays float32 (sentinel: the float32 UNSEEN) except for a
+    `wmean` with float64 weights; `and` / `or` keep integer kinds and sentinels; wide masks keep
+    kind; records change field by field, the sentinel being the default of the new primary -/
+theorem outKind_rules :
+    (∀ b sg red w, isAndOr red = false →
+      coreOutKind (.plain (.int b sg)) red w = .plain (.flt 64) ∧
+      ∀ s, coreOutSent (.plain (.int b sg)) s red w = .num unseen64 0) ∧
+    (∀ red w, coreOutKind (.plain .bool) red w = .plain (.flt 64) ∧
+      ∀ s, coreOutSent (.plain .bool) s red w = .num unseen64 0) ∧
+    (∀ red w, (red == "wmean" && isF64 w) = false →
+      coreOutKind (.plain (.flt 32)) red w = .plain (.flt 32) ∧
+      ∀ s, coreOutSent (.plain (.flt 32)) s red w = .num unseen32 0) ∧
+    (∀ w, isF64 w = true → coreOutKind (.plain (.flt 32)) "wmean" w = .plain (.flt 64) ∧
+      ∀ s, coreOutSent (.plain (.flt 32)) s "wmean" w = .num unseen64 0) ∧
+    (∀ red w, coreOutKind (.plain (.flt 64)) red w = .plain (.flt 64)) ∧
+    (∀ b sg red w, isAndOr red = true →
+      coreOutKind (.plain (.int b sg)) red w = .plain (.int b sg) ∧
+      ∀ s, coreOutSent (.plain (.int b sg)) s red w = s) ∧
+    (∀ n red w, coreOutKind (.wide n) red w = .wide n) ∧
+    (∀ fs pr red w, coreOutKind (.recd fs pr) red w = .recd (fs.map auxDT) pr ∧
+      ∀ s, coreOutSent (.recd fs pr) s red w = (auxDT (fs.getD pr (.flt 64))).defaultSentinel) := by
+  refine ⟨?_, ?_, ?_, ?_, ?_, ?_, fun _ _ _ => rfl, fun _ _ _ _ => ⟨rfl, fun _ => rfl⟩⟩
+  · intro b sg red w h
+    simp only [coreOutKind, coreOutSent, h, Bool.and_false, Bool.false_eq_true, if_false, auxDT]
+    constructor
+    · split <;> rfl
+    · intro s; split <;> rfl
+  · intro red w
+    simp only [coreOutKind, coreOutSent, DT.isInt, Bool.false_and, Bool.false_eq_true, if_false, auxDT]
+    constructor
+    · split <;> rfl
+    · intro s; split <;> rfl
+  · intro red w h
+    simp only [coreOutKind, coreOutSent, DT.isInt, Bool.false_and, Bool.false_eq_true, if_false, auxDT, h]
+    exact ⟨trivial, fun _ => rfl⟩
+  · intro w h
+    simp only [coreOutKind, coreOutSent, DT.isInt, Bool.false_and, Bool.false_eq_true, if_false, auxDT, h,
+      beq_self_eq_true, Bool.and_self, if_true]
+    exact ⟨trivial, fun _ => rfl⟩
+  · intro red w
+    simp only [coreOutKind, DT.isInt, Bool.false_and, Bool.false_eq_true, if_false, auxDT]
+    split <;> rfl
+  · intro b sg red w h
+    simp only [coreOutKind, coreOutSent, DT.isInt, h, Bool.and_self, if_true]
+    exact ⟨trivial, fun _ => trivial⟩
+
+/-- **THE VALUE, every kind, both paths** (`ordOut < spord`): coarse pixel `q` of the result
+    holds the kind's reduction (`coreRed`) of the (value, weight) pairs of its
+    `4^(spord-ordOut)` children in NEST order when `q` is `live` — it has a valid child, or
+    (at or above the coverage resolution) lies in a covered coverage pixel — and the blank cell
+    otherwise.  `srcAbs` is the stored value (below the coverage resolution: the blank cell at
+    invalid pixels); `wAt` the weight map's value at the valid pixels, 0 elsewhere. -/
+theorem api_degrade_value {m m' : MapObj} {ordOut : Nat} {red : String} {w : Option MapObj}
+    (h : m.Ok) (hww : WeightsWF m ordOut red w) (hlt : ordOut < m.spord)
+    (hr : apiDegrade m ordOut red w = .ok m') (q : Nat) (hq : q < 12 * 4 ^ ordOut) :
+    m'.abs q =
+      if live m ordOut q
+      then coreRed m red w ((childPix m ordOut q).map fun p => (srcAbs m ordOut p, wAt m red w p))
+      else m'.vc.sentinel :=
+  (apiDegrade_ok h.1 h.2.1.blankInvalid hlt hr).abs hww q hq
+
+/-- **coverage mask of the result**: at or above the coverage resolution, the mask of the
+    source (coverage pixels without any valid pixel stay covered); below it, a coverage pixel
+    of the result is covered exactly when it has a valid child -/
+theorem api_degrade_coverage {m m' : MapObj} {ordOut : Nat} {red : String} {w : Option MapObj}
+    (h : m.Ok) (hlt : ordOut < m.spord) (hr : apiDegrade m ordOut red w = .ok m')
+    (k : Nat) (hk : k < 12 * 4 ^ (min m.covord ordOut)) :
+    covered m'.c m'.st k =
+      if ordOut < m.covord then (childPix m ordOut k).any (fun p => m.vc.valid (m.abs p))
+      else covered m.c m.st k :=
+  (apiDegrade_ok h.1 h.2.1.blankInvalid hlt hr).cov k hk
+
+/-- the sentinel (= blank cell) of a plain result -/
+theorem plain_sentinel {m' : MapObj} {dt : DT} (hk : m'.kind = .plain dt) :
+    m'.vc.sentinel = m'.sent := by
+  unfold MapObj.vc; rw [hk]; rfl
+
+/-- **float reductions** (plain maps; integers and booleans included, `and`/`or` on integers
+    excluded; not `wmean`): the nan-reduction over EXACTLY the valid children on a live coarse
+    pixel, UNSEEN elsewhere -/
+theorem api_degrade_float {m m' : MapObj} {dt : DT} {ordOut : Nat} {red : String}
+    {w : Option MapObj} (h : m.Ok) (hk : m.kind = .plain dt)
+    (hc : (dt.isInt && isAndOr red) = false) (hnw : (red == "wmean") = false)
+    (hlt : ordOut < m.spord) (hr : apiDegrade m ordOut red w = .ok m') (q : Nat)
+    (hq : q < 12 * 4 ^ ordOut) :
+    m'.kind = .plain (auxDT dt) ∧ m'.sent = (auxDT dt).defaultSentinel ∧
+    m'.abs q =
+      if live m ordOut q
+      then fltOut (auxDT dt) (reduceVals red ((validChildren m ordOut q).map fun p => (m.abs p).numD) [] [])
+      else (auxDT dt).defaultSentinel := by
+  have D := apiDegrade_ok h.1 h.2.1.blankInvalid hlt hr
+  have hkind : m'.kind = .plain (auxDT dt) := by
+    rw [D.kind, hk]; simp only [coreOutKind, hc, hnw, Bool.false_and, Bool.false_eq_true, if_false]
+  have hsent : m'.sent = (auxDT dt).defaultSentinel := by
+    rw [D.sent]; unfold degradeSent; rw [hk]
+    simp only [coreOutSent, hc, hnw, Bool.false_and, Bool.false_eq_true, if_false]
+  refine ⟨hkind, hsent, ?_⟩
+  rw [D.abs (weightsWF_of_not_wmean hnw) q hq, coreRed_float h.2.1.blankInvalid hk hc,
+    reduceVals_unweighted hnw, plain_sentinel hkind, hsent]
+  simp only [hnw, Bool.false_and, Bool.false_eq_true, if_false]
+
+/-- **the masked reductions** (mean, median, std, max, min): a coarse pixel without valid
+    children — covered or not, above or below the coverage resolution — holds UNSEEN and is
+    invalid; any other holds the reduction over exactly its valid children -/
+theorem api_degrade_masked {m m' : MapObj} {dt : DT} {ordOut : Nat} {red : String}
+    {w : Option MapObj} (h : m.Ok) (hk : m.kind = .plain dt) (hred : red ∈ maskedReds)
+    (hlt : ordOut < m.spord) (hr : apiDegrade m ordOut red w = .ok m') (q : Nat)
+    (hq : q < 12 * 4 ^ ordOut) :
+    (validChildren m ordOut q = [] → m'.abs q = m'.vc.sentinel ∧ m'.vc.valid (m'.abs q) = false) ∧
+    (validChildren m ordOut q ≠ [] → m'.abs q =
+      fltOut (auxDT dt) (reduceVals red ((validChildren m ordOut q).map fun p => (m.abs p).numD) [] [])) := by
+  have hao : isAndOr red = false := by
+    simp only [maskedReds, List.mem_cons, List.not_mem_nil, or_false] at hred
+    rcases hred with rfl | rfl | rfl | rfl | rfl <;> rfl
+  have hnw : (red == "wmean") = false := by
+    simp only [maskedReds, List.mem_cons, List.not_mem_nil, or_false] at hred
+    rcases hred with rfl | rfl | rfl | rfl | rfl <;> rfl
+  obtain ⟨hkind, hsent, habs⟩ := api_degrade_float h hk (by rw [hao, Bool.and_false]) hnw hlt hr q hq
+  have hs : m'.vc.sentinel = (auxDT dt).defaultSentinel := by rw [plain_sentinel hkind, hsent]
+  constructor
+  · intro hnil
+    have : m'.abs q = m'.vc.sentinel := by
+      rw [habs, hnil, List.map_nil, reduceVals_nil_masked hred, fltOut_none, hs]
+      split <;> rfl
+    exact ⟨this, by rw [this]; exact (Ok.apiDegrade h hr).2.1.blankInvalid⟩
+  · intro hne
+    rw [habs, live_of_validChildren hne, if_pos rfl]
+
+/-- **the sum / prod exception, exactly**: `nansum` of nothing is 0 and `nanprod` 1, so a coarse
+    pixel WITHOUT valid children that lies in a covered coverage pixel (at or above the coverage
+    resolution) holds 0 resp. 1 — a VALID value of the result; outside the coverage, and
+    everywhere below the coverage resolution (re-housing covers only what has a valid pixel),
+    it holds UNSEEN.  With valid children: the sum / product over exactly those. -/
+theorem api_degrade_sum_prod {m m' : MapObj} {dt : DT} {ordOut : Nat} {red : String}
+    {w : Option MapObj} (h : m.Ok) (hk : m.kind = .plain dt) (hred : red = "sum" ∨ red = "prod")
+    (hlt : ordOut < m.spord) (hr : apiDegrade m ordOut red w = .ok m') (q : Nat)
+    (hq : q < 12 * 4 ^ ordOut) :
+    (validChildren m ordOut q = [] → m'.abs q =
+      if m.covord ≤ ordOut ∧ covered m.c m.st (q >>> (2 * (ordOut - m.covord))) = true
+      then (if red = "sum" then .num 0 0 else .num 1 0) else (auxDT dt).defaultSentinel) ∧
+    (validChildren m ordOut q ≠ [] → m'.abs q =
+      fltOut (auxDT dt) (reduceVals red ((validChildren m ordOut q).map fun p => (m.abs p).numD) [] [])) := by
+  have hao : isAndOr red = false := by rcases hred with rfl | rfl <;> rfl
+  have hnw : (red == "wmean") = false := by rcases hred with rfl | rfl <;> rfl
+  obtain ⟨hkind, hsent, habs⟩ := api_degrade_float h hk (by rw [hao, Bool.and_false]) hnw hlt hr q hq
+  constructor
+  · intro hnil
+    rw [habs, live_of_no_validChildren hnil, hnil, List.map_nil]
+    by_cases hc : m.covord ≤ ordOut ∧ covered m.c m.st (q >>> (2 * (ordOut - m.covord))) = true
+    · rw [if_pos hc, decide_eq_true hc.1, hc.2, Bool.and_self, if_pos rfl]
+      rcases hred with rfl | rfl
+      · rw [reduceVals_nil_sum, fltOut_zero, if_pos rfl]
+      · rw [reduceVals_nil_prod, fltOut_one, if_neg (by decide)]
+    · rw [if_neg hc, if_neg]
+      intro hc'
+      apply hc
+      simpa using hc'
+  · intro hne
+    rw [habs, live_of_validChildren hne, if_pos rfl]
+
+theorem flt_sentinel_ne (dt : DT) :
+    (Val.num 0 0 != (auxDT dt).defaultSentinel) = true ∧ (Val.num 1 0 != (auxDT dt).defaultSentinel) = true := by
+  obtain ⟨b, hb⟩ := WFRes.auxDT_flt dt
+  rw [hb]
+  unfold DT.defaultSentinel
+  split <;> first | (constructor <;> decide) | (rename_i h; cases h)
+
+/-- … and that 0 resp. 1 is a VALID pixel of the result -/
+theorem api_degrade_sum_prod_valid {m m' : MapObj} {dt : DT} {ordOut : Nat} {red : String}
+    {w : Option MapObj} (h : m.Ok) (hk : m.kind = .plain dt) (hred : red = "sum" ∨ red = "prod")
+    (hlt : ordOut < m.spord) (hr : apiDegrade m ordOut red w = .ok m') (q : Nat)
+    (hq : q < 12 * 4 ^ ordOut) (hnil : validChildren m ordOut q = []) (hlo : m.covord ≤ ordOut)
+    (hc : covered m.c m.st (q >>> (2 * (ordOut - m.covord))) = true) :
+    m'.vc.valid (m'.abs q) = true := by
+  have hao : isAndOr red = false := by rcases hred with rfl | rfl <;> rfl
+  have hnw : (red == "wmean") = false := by rcases hred with rfl | rfl <;> rfl
+  obtain ⟨hkind, hsent, _⟩ := api_degrade_float h hk (by rw [hao, Bool.and_false]) hnw hlt hr q hq
+  rw [(api_degrade_sum_prod h hk hred hlt hr q hq).1 hnil, if_pos ⟨hlo, hc⟩]
+  unfold MapObj.vc
+  rw [hkind, hsent]
+  show (_ != _) = true
+  split
+  · exact (flt_sentinel_ne dt).1
+  · exact (flt_sentinel_ne dt).2
+
+/-- **weighted mean** (plain maps): `Σ value·weight / Σ weight` over EXACTLY the valid children,
+    the weight of child `p` being the weight map's value at `p` (its dense view: the block order
+    of the weight map plays no role); no valid child ⇒ UNSEEN.  The result is float64 when the
+    weight map is, else the float type of the source (float64 for integers and booleans). -/
+theorem api_degrade_wmean {m m' wm : MapObj} {dt : DT} {ordOut : Nat}
+    (h : m.Ok) (hk : m.kind = .plain dt) (hww : WeightsWF m ordOut "wmean" (some wm))
+    (hlt : ordOut < m.spord) (hr : apiDegrade m ordOut "wmean" (some wm) = .ok m') (q : Nat)
+    (hq : q < 12 * 4 ^ ordOut) :
+    m'.kind = .plain (if isF64 (some wm) then .flt 64 else auxDT dt) ∧
+    m'.sent = (if isF64 (some wm) then DT.flt 64 else auxDT dt).defaultSentinel ∧
+    m'.abs q =
+      if validChildren m ordOut q = [] then m'.sent
+      else fltOut (if isF64 (some wm) then .flt 64 else auxDT dt)
+        (wmeanOf
+          (dySum (List.zipWith dyMul ((validChildren m ordOut q).map fun p => (m.abs p).numD)
+            ((validChildren m ordOut q).map fun p => (wm.abs p).numD)))
+          (dySum ((validChildren m ordOut q).map fun p => (wm.abs p).numD))) := by
+  have D := apiDegrade_ok h.1 h.2.1.blankInvalid hlt hr
+  have hc : (dt.isInt && isAndOr "wmean") = false := by
+    rw [show isAndOr "wmean" = false from rfl, Bool.and_false]
+  have hkind : m'.kind = .plain (if isF64 (some wm) then .flt 64 else auxDT dt) := by
+    rw [D.kind, hk]
+    simp only [coreOutKind, hc, Bool.false_eq_true, if_false, beq_self_eq_true, Bool.true_and]
+  have hsent : m'.sent = (if isF64 (some wm) then DT.flt 64 else auxDT dt).defaultSentinel := by
+    rw [D.sent]; unfold degradeSent; rw [hk]
+    simp only [coreOutSent, hc, Bool.false_eq_true, if_false, beq_self_eq_true, Bool.true_and]
+  refine ⟨hkind, hsent, ?_⟩
+  rw [D.abs hww q hq, coreRed_float h.2.1.blankInvalid hk hc, reduceVals_wmean, ws_wmean,
+    wden_wmean, plain_sentinel hkind]
+  simp only [beq_self_eq_true, Bool.true_and]
+  by_cases hnil : validChildren m ordOut q = []
+  · rw [if_pos hnil, hnil]
+    simp only [List.map_nil, List.zipWith_nil_left]
+    rw [show wmeanOf (dySum []) (dySum []) = none from rfl, fltOut_none, hsent]
+    split <;> rfl
+  · rw [if_neg hnil, live_of_validChildren hnil, if_pos rfl]
+
+/-- **zero total weight**: the result is NaN — UNSEEN, an invalid pixel — when the weighted sum
+    vanishes too, and ±inf otherwise (`poison`: the exact model discards the case) -/
+theorem wmeanOf_zero_weight (dtOut : DT) (sxw sw : Int × Nat) (h : sw.1 = 0) :
+    fltOut dtOut (wmeanOf sxw sw) = if sxw.1 == 0 then dtOut.defaultSentinel else .poison := by
+  unfold wmeanOf
+  simp only [h, beq_self_eq_true, if_true]
+  split <;> rfl
+
+/-- **integer `and` / `or`** (F36): kind and sentinel are kept, and a live coarse pixel holds the
+    bitwise fold over ALL its children — the stored values, sentinels of the invalid children
+    included; NO validity mask is applied -/
+theorem api_degrade_andor_int {m m' : MapObj} {dt : DT} {ordOut : Nat} {red : String}
+    {w : Option MapObj} (h : m.Ok) (hk : m.kind = .plain dt) (hi : dt.isInt = true)
+    (hao : isAndOr red = true) (hlt : ordOut < m.spord)
+    (hr : apiDegrade m ordOut red w = .ok m') (q : Nat) (hq : q < 12 * 4 ^ ordOut) :
+    m'.kind = m.kind ∧ m'.sent = m.sent ∧
+    m'.abs q =
+      if live m ordOut q then intRed dt m.sent red ((childPix m ordOut q).map m.abs)
+      else m.sent := by
+  have D := apiDegrade_ok h.1 h.2.1.blankInvalid hlt hr
+  have hc : (dt.isInt && isAndOr red) = true := by rw [hi, hao]; rfl
+  have hnw : (red == "wmean") = false := by
+    cases hw : (red == "wmean") with
+    | false => rfl
+    | true => rw [eq_of_beq hw] at hao; cases hao
+  have hkind : m'.kind = m.kind := by
+    rw [D.kind, hk]; simp only [coreOutKind, hc, if_true]
+  have hsent : m'.sent = m.sent := by
+    rw [D.sent]; unfold degradeSent; rw [hk]; simp only [coreOutSent, hc, if_true]
+  refine ⟨hkind, hsent, ?_⟩
+  rw [D.abs (weightsWF_of_not_wmean hnw) q hq, coreRed_int hk hc,
+    plain_sentinel (hkind.trans hk), hsent]
+
+/-- the INTENDED integer `and` / `or` (the reduction over exactly the valid children) holds under
+    the extra hypothesis that every child of the coarse pixel is valid -/
+theorem api_degrade_andor_int_partial {m m' : MapObj} {dt : DT} {ordOut : Nat} {red : String}
+    {w : Option MapObj} (h : m.Ok) (hk : m.kind = .plain dt) (hi : dt.isInt = true)
+    (hao : isAndOr red = true) (hlt : ordOut < m.spord)
+    (hr : apiDegrade m ordOut red w = .ok m') (q : Nat) (hq : q < 12 * 4 ^ ordOut)
+    (hall : ∀ p ∈ childPix m ordOut q, m.vc.valid (m.abs p) = true) :
+    m'.abs q = intRed dt m.sent red ((validChildren m ordOut q).map m.abs) := by
+  have hvc : validChildren m ordOut q = childPix m ordOut q := by
+    unfold validChildren; rw [List.filter_eq_self]; exact hall
+  have hne : validChildren m ordOut q ≠ [] := by
+    rw [hvc]; intro hnil
+    have := childPix_length m ordOut q
+    rw [hnil] at this
+    exact absurd this.symm (Nat.ne_of_gt (Nat.pow_pos (by decide)))
+  rw [(api_degrade_andor_int h hk hi hao hlt hr q hq).2.2, live_of_validChildren hne, if_pos rfl, hvc]
+
+/-- **wide masks** (`and` / `or` only): kind kept; a live coarse pixel holds the bytewise fold
+    over ALL its children (below the coverage resolution the invalid children read the zero
+    row) — no validity mask (F36) -/
+theorem api_degrade_wide {m m' : MapObj} {n : Nat} {ordOut : Nat} {red : String}
+    {w : Option MapObj} (h : m.Ok) (hk : m.kind = .wide n) (hlt : ordOut < m.spord)
+    (hr : apiDegrade m ordOut red w = .ok m') (q : Nat) (hq : q < 12 * 4 ^ ordOut) :
+    isAndOr red = true ∧ m'.kind = .wide n ∧
+    m'.abs q =
+      if live m ordOut q then wideRed n red ((childPix m ordOut q).map (srcAbs m ordOut))
+      else .bytes (List.replicate n 0) := by
+  have D := apiDegrade_ok h.1 h.2.1.blankInvalid hlt hr
+  have hao : isAndOr red = true := by have := D.accepts; rw [hk] at this; exact this
+  have hnw : (red == "wmean") = false := by
+    cases hw : (red == "wmean") with
+    | false => rfl
+    | true => rw [eq_of_beq hw] at hao; cases hao
+  have hkind : m'.kind = .wide n := by rw [D.kind, hk]; rfl
+  refine ⟨hao, hkind, ?_⟩
+  rw [D.abs (weightsWF_of_not_wmean hnw) q hq, coreRed_wide hk, map_fst_pairs]
+  have : m'.vc.sentinel = .bytes (List.replicate n 0) := by unfold MapObj.vc; rw [hkind]; rfl
+  rw [this]
+
+/-- the intended wide-mask reduction holds when every child of the coarse pixel is valid -/
+theorem api_degrade_wide_partial {m m' : MapObj} {n : Nat} {ordOut : Nat} {red : String}
+    {w : Option MapObj} (h : m.Ok) (hk : m.kind = .wide n) (hlt : ordOut < m.spord)
+    (hr : apiDegrade m ordOut red w = .ok m') (q : Nat) (hq : q < 12 * 4 ^ ordOut)
+    (hall : ∀ p ∈ childPix m ordOut q, m.vc.valid (m.abs p) = true) :
+    m'.abs q = wideRed n red ((validChildren m ordOut q).map m.abs) := by
+  have hvc : validChildren m ordOut q = childPix m ordOut q := by
+    unfold validChildren; rw [List.filter_eq_self]; exact hall
+  have hne : validChildren m ordOut q ≠ [] := by
+    rw [hvc]; intro hnil
+    have := childPix_length m ordOut q
+    rw [hnil] at this
+    exact absurd this.symm (Nat.ne_of_gt (Nat.pow_pos (by decide)))
+  rw [(api_degrade_wide h hk hlt hr q hq).2.2, live_of_validChildren hne, if_pos rfl, hvc]
+  congr 1
+  apply List.map_congr_left
+  intro p hp
+  exact srcAbs_of_valid (hall p hp)
+
+/-- **record maps**: the fields become float (`auxDT`), the sentinel the default of the new
+    primary field; a live coarse pixel holds, FIELD BY FIELD, the nan-reduction of that field
+    over exactly the children whose PRIMARY field is valid (NaN ↦ the field's default sentinel),
+    any other coarse pixel the blank record -/
+theorem api_degrade_recd {m m' : MapObj} {fs : List DT} {pr : Nat} {ordOut : Nat} {red : String}
+    {w : Option MapObj} (h : m.Ok) (hk : m.kind = .recd fs pr) (hww : WeightsWF m ordOut red w)
+    (hlt : ordOut < m.spord) (hr : apiDegrade m ordOut red w = .ok m') (q : Nat)
+    (hq : q < 12 * 4 ^ ordOut) :
+    m'.kind = .recd (fs.map auxDT) pr ∧
+    m'.sent = (auxDT (fs.getD pr (.flt 64))).defaultSentinel ∧
+    m'.abs q =
+      if live m ordOut q
+      then recOut fs (fun i =>
+        reduceVals red ((validChildren m ordOut q).map fun p => fieldOf i (m.abs p))
+          ((validChildren m ordOut q).map fun p => (wAt m red w p).numD)
+          ((childPix m ordOut q).map fun p => (wAt m red w p).numD))
+      else m'.vc.sentinel := by
+  have D := apiDegrade_ok h.1 h.2.1.blankInvalid hlt hr
+  refine ⟨by rw [D.kind, hk]; rfl, by rw [D.sent]; unfold degradeSent; rw [hk]; rfl, ?_⟩
+  rw [D.abs hww q hq, coreRed_recd h.2.1.blankInvalid hk]
+
+/-- record maps, masked reductions: a coarse pixel without a child whose primary is valid is
+    invalid in the result -/
+theorem api_degrade_recd_masked {m m' : MapObj} {fs : List DT} {pr : Nat} {ordOut : Nat}
+    {red : String} {w : Option MapObj} (h : m.Ok) (hk : m.kind = .recd fs pr)
+    (hred : red ∈ maskedReds) (hlt : ordOut < m.spord)
+    (hr : apiDegrade m ordOut red w = .ok m') (q : Nat) (hq : q < 12 * 4 ^ ordOut)
+    (hnil : validChildren m ordOut q = []) : m'.vc.valid (m'.abs q) = false := by
+  have hnw : (red == "wmean") = false := by
+    simp only [maskedReds, List.mem_cons, List.not_mem_nil, or_false] at hred
+    rcases hred with rfl | rfl | rfl | rfl | rfl <;> rfl
+  obtain ⟨hkind, hsent, habs⟩ := api_degrade_recd h hk (weightsWF_of_not_wmean hnw) hlt hr q hq
+  have hb := (Ok.apiDegrade h hr).2.1.blankInvalid
+  cases hl : live m ordOut q with
+  | false => rw [habs, hl]; exact hb
+  | true =>
+    rw [habs, hl, if_pos rfl, hnil]
+    simp only [List.map_nil, reduceVals_nil_masked hred]
+    have hpr : pr < fs.length := by
+      have := h.2.1
+      unfold MapObj.KindOk MapObj.kindOk at this
+      rw [hk] at this
+      simp only at this
+      cases hget : fs[pr]? with
+      | none => rw [hget] at this; cases this
+      | some dt => exact (List.getElem?_eq_some_iff.1 hget).1
+    unfold MapObj.vc
+    rw [hkind, hsent]
+    simp only [recOut, Kind.valid, List.all_map, List.map_map]
+    have hall : ((List.range fs.length).all (Option.isSome ∘ fun i =>
+        some ((List.map auxDT fs).getD i (DT.flt 64)).defaultSentinel.numD)) = true := by
+      rw [List.all_eq_true]; intro i _; rfl
+    rw [if_pos hall]
+    simp only [List.getD_eq_getElem?_getD, List.getElem?_map, List.getElem?_range hpr,
+      List.getElem?_eq_getElem hpr, Option.map_some, Option.getD_some, Function.comp_apply]
+    simp
+
+/-! ### errors -/
+
+/-- `nside_out > nside_sparse` is a ValueError; a bit-packed map NotImplementedError -/
+theorem api_degrade_error_range (m : MapObj) (ordOut : Nat) (red : String) (w : Option MapObj) :
+    (ordOut > m.spord → apiDegrade m ordOut red w = .error .value) ∧
+    (ordOut ≤ m.spord → m.kind = .packed → apiDegrade m ordOut red w = .error .notImpl) := by
+  rw [apiDegrade_eq]
+  unfold degradeSpec
+  constructor
+  · intro h; rw [if_pos h]
+  · intro h hk; rw [if_neg (by omega), if_pos (by rw [hk]; rfl)]
+
+/-- **when `degrade` succeeds**, `covord ≤ ordOut < spord`: EXACTLY when the weight checks pass
+    (`weightsOk`: for `wmean` only — a floating-point weight map with the two resolutions of
+    this map and the same sorted `valid_pixels`), the kind accepts the reduction
+    (`coreAccepts`), and — an artefact of the exact model, not of the library — every cell
+    converts to float64 exactly unless the reduction is `and` / `or` -/
+theorem api_degrade_ok_iff {m : MapObj} {ordOut : Nat} {red : String} {w : Option MapObj}
+    (h : m.Ok) (hlo : m.covord ≤ ordOut) (hlt : ordOut < m.spord) :
+    (∃ m', apiDegrade m ordOut red w = .ok m') ↔
+      weightsOk m red w ∧ coreAccepts m.kind red = true ∧
+        (isAndOr red = true ∨ cellsFitF64 m.st.sp = true) :=
+  apiDegrade_inrange_isOk_iff h.1 h.2.1.blankInvalid hlo hlt
+
+/-- on every path (`ordOut < spord`): a reduction the kind does not accept, a `wmean` without
+    weights, with a weight map that is not floating point, or of another sparse resolution, is
+    an error -/
+theorem api_degrade_rejects {m : MapObj} {ordOut : Nat} {red : String} {w : Option MapObj}
+    (h : m.Ok) (hlt : ordOut < m.spord)
+    (hbad : coreAccepts m.kind red = false ∨
+      ((red == "wmean") = true ∧ (w = none ∨ ∃ wm, w = some wm ∧
+        ((∀ b, wm.kind ≠ .plain (.flt b)) ∨ wm.spord ≠ m.spord)))) :
+    ∃ e, apiDegrade m ordOut red w = .error e := by
+  cases hr : apiDegrade m ordOut red w with
+  | error e => exact ⟨e, rfl⟩
+  | ok m' =>
+    exfalso
+    have D := apiDegrade_ok h.1 h.2.1.blankInvalid hlt hr
+    rcases hbad with hb | ⟨hw, hb⟩
+    · rw [D.accepts] at hb; cases hb
+    · obtain ⟨wm, b, e1, e2, e3, _⟩ := D.wts hw
+      rcases hb with hb | ⟨wm', e1', hb | hb⟩
+      · rw [hb] at e1; cases e1
+      · rw [e1'] at e1; cases e1; exact hb b e2
+      · rw [e1'] at e1; cases e1; exact hb e3
+
+/-- the error codes of the in-range weight checks: `wmean` without weights, with a weight map
+    that is not floating point, or whose resolutions differ — ValueError each -/
+theorem api_degrade_weight_errors {m : MapObj} {ordOut : Nat} (hk : m.kind ≠ .packed)
+    (hlo : m.covord ≤ ordOut) (hlt : ordOut < m.spord) :
+    apiDegrade m ordOut "wmean" none = .error .value ∧
+    (∀ wm, (∀ b, wm.kind ≠ .plain (.flt b)) → apiDegrade m ordOut "wmean" (some wm) = .error .value) ∧
+    (∀ wm b, wm.kind = .plain (.flt b) → (wm.spord ≠ m.spord ∨ wm.covord ≠ m.covord) →
+      apiDegrade m ordOut "wmean" (some wm) = .error .value) := by
+  have key : ∀ w, apiDegrade m ordOut "wmean" w = coreWeights m "wmean" w >>= coreRest m ordOut "wmean" w := by
+    intro w
+    rw [apiDegrade_eq]
+    unfold degradeSpec
+    rw [if_neg (by omega), if_neg (by simpa using hk), if_neg (by omega), if_neg (by simp; omega),
+      apiDegradeCore_eq]
+  refine ⟨?_, ?_, ?_⟩
+  · rw [key]; rfl
+  · intro wm hwk
+    rw [key]
+    unfold coreWeights
+    simp only [bne_self_eq_false, Bool.false_eq_true, if_false]
+    first
+      | rfl
+      | (split
+         · rename_i b hb; exact absurd hb (hwk b)
+         · rfl)
+  · intro wm b hwk hne
+    rw [key]
+    unfold coreWeights
+    simp only [bne_self_eq_false, Bool.false_eq_true, if_false, hwk]
+    rw [if_pos (by rcases hne with h | h <;> simp [h])]
+    rfl
+
+/-- **integer `or` over the sentinel 0 IS the masked reduction** — the one case F36 leaves
+    intact: when the sentinel is 0 and the children hold integers of the map's dtype (`IntCell`;
+    a dtype of at least one bit), the result is the `or` over EXACTLY the valid children, and the
+    sentinel when there is none.  (`Witness.f36_or_eval`: false for any other sentinel.) -/
+theorem api_degrade_or_zero_sentinel {m m' : MapObj} {b : Nat} {sg : Bool} {ordOut : Nat}
+    {w : Option MapObj} (h : m.Ok) (hk : m.kind = .plain (.int b sg)) (hb : 0 < b)
+    (hs : m.sent = .num 0 0) (hlt : ordOut < m.spord)
+    (hr : apiDegrade m ordOut "or" w = .ok m') (q : Nat) (hq : q < 12 * 4 ^ ordOut)
+    (hty : ∀ p ∈ childPix m ordOut q, IntCell b sg (m.abs p)) :
+    m'.abs q = intRed (.int b sg) (.num 0 0) "or" ((validChildren m ordOut q).map m.abs) := by
+  have hvalid : m.vc.valid = fun v => v != Val.num 0 0 := by
+    unfold MapObj.vc; rw [hk, hs]; rfl
+  have hvc : (validChildren m ordOut q).map m.abs =
+      ((childPix m ordOut q).map m.abs).filter fun v => v != Val.num 0 0 := by
+    unfold validChildren
+    rw [List.filter_map, hvalid]
+    rfl
+  rw [(api_degrade_andor_int h hk rfl rfl hlt hr q hq).2.2, hs]
+  cases hl : live m ordOut q with
+  | true =>
+    rw [if_pos rfl, hvc]
+    apply intRed_or_zero hb
+    intro x hx
+    obtain ⟨p, hp, rfl⟩ := List.mem_map.1 hx
+    exact hty p hp
+  | false =>
+    have hnil : validChildren m ordOut q = [] := by
+      rw [validChildren_eq_nil_iff]
+      unfold live at hl
+      exact (Bool.or_eq_false_iff.1 hl).1
+    rw [hnil]
+    rfl
+
+/-! ### F36 and its extension: the evaluated counterexamples -/
+
+namespace Witness
+open WFApi (okAnd okAnd_iff)
+
+/-- an int64 map at orders (0, 1) whose coarse pixel 0 has the valid children 0, 1 (values 7, 5)
+    and the invalid children 2, 3; `sent = none` gives it the default sentinel `-2^63` -/
+def partialInt (sent : Option Val) : Except Err MapObj :=
+  apiMakeEmpty 0 1 (.plain (.int 64 true)) sent [] >>= fun e =>
+    apiUpdate e "replace" [0, 1] (some [.num 7 0, .num 5 0]) false
+
+/-- (F36) sentinel 0, `and`: the valid children of coarse pixel 0 are `[0, 1]`, their `and` is
+    `7 & 5 = 5`, but `degrade` answers `0` (= `7 & 5 & 0 & 0`, the sentinel: the pixel comes back
+    INVALID) -/
+theorem f36_and_eval :
+    okAnd (partialInt (some (.num 0 0))) (fun m =>
+      decide m.Ok && decide (m.kind = .plain (.int 64 true)) && decide (m.spord = 1) &&
+      decide (validChildren m 0 0 = [0, 1]) &&
+      decide (intRed (.int 64 true) m.sent "and" ((validChildren m 0 0).map m.abs) = .num 5 0) &&
+      okAnd (apiDegrade m 0 "and" none) (fun m' =>
+        decide (m'.abs 0 = .num 0 0) && !m'.vc.valid (m'.abs 0))) = true := by
+  decide +kernel
+
+/-- (extension of F36, NEW) default sentinel `-2^63`, `or`: the `or` of the valid children is
+    `7 | 5 = 7`, but `degrade` answers `-9223372036854775801` (= `7 | -2^63`: the sentinel's bit
+    pattern is or-ed in).  `or` is unaffected only when the sentinel is 0. -/
+theorem f36_or_eval :
+    okAnd (partialInt none) (fun m =>
+      decide m.Ok && decide (m.kind = .plain (.int 64 true)) && decide (m.spord = 1) &&
+      decide (validChildren m 0 0 = [0, 1]) &&
+      decide (intRed (.int 64 true) m.sent "or" ((validChildren m 0 0).map m.abs) = .num 7 0) &&
+      okAnd (apiDegrade m 0 "or" none) (fun m' =>
+        decide (m'.abs 0 = .num (-9223372036854775801) 0))) = true := by
+  decide +kernel
+
+/-- … and with the default sentinel `and` answers `0`, here a VALID value of the result -/
+theorem f36_and_default_eval :
+    okAnd (partialInt none) (fun m => decide m.Ok &&
+      okAnd (apiDegrade m 0 "and" none) (fun m' =>
+        decide (m'.abs 0 = .num 0 0) && m'.vc.valid (m'.abs 0))) = true := by
+  decide +kernel
+
+/-- the statement "integer `and` / `or` degrade reduces exactly the valid children" is FALSE
+    (`api_degrade_andor_int_partial` proves it under "every child valid") -/
+theorem api_degrade_andor_masked_false :
+    ¬ (∀ (m m' : MapObj) (dt : DT) (ordOut : Nat) (red : String) (w : Option MapObj) (q : Nat),
+        m.Ok → m.kind = .plain dt → dt.isInt = true → isAndOr red = true → ordOut < m.spord →
+        apiDegrade m ordOut red w = .ok m' → q < 12 * 4 ^ ordOut → validChildren m ordOut q ≠ [] →
+        m'.abs q = intRed dt m.sent red ((validChildren m ordOut q).map m.abs)) := by
+  intro H
+  obtain ⟨m, _, hP⟩ := (okAnd_iff _ _).1 f36_and_eval
+  simp only [Bool.and_eq_true, decide_eq_true_eq] at hP
+  obtain ⟨⟨⟨⟨⟨h1, h2⟩, h3⟩, h4⟩, h5⟩, h6⟩ := hP
+  obtain ⟨m', hm', h7⟩ := (okAnd_iff _ _).1 h6
+  simp only [Bool.and_eq_true, decide_eq_true_eq] at h7
+  have := H m m' _ 0 "and" none 0 h1 h2 rfl rfl (by omega) hm' (by decide) (by rw [h4]; simp)
+  rw [h5, h7.1] at this
+  cases this
+
+/-- the same with `or` (sentinel ≠ 0) -/
+theorem api_degrade_or_masked_false :
+    ¬ (∀ (m m' : MapObj) (dt : DT) (ordOut : Nat) (w : Option MapObj) (q : Nat),
+        m.Ok → m.kind = .plain dt → dt.isInt = true → ordOut < m.spord →
+        apiDegrade m ordOut "or" w = .ok m' → q < 12 * 4 ^ ordOut → validChildren m ordOut q ≠ [] →
+        m'.abs q = intRed dt m.sent "or" ((validChildren m ordOut q).map m.abs)) := by
+  intro H
+  obtain ⟨m, _, hP⟩ := (okAnd_iff _ _).1 f36_or_eval
+  simp only [Bool.and_eq_true, decide_eq_true_eq] at hP
+  obtain ⟨⟨⟨⟨⟨h1, h2⟩, h3⟩, h4⟩, h5⟩, h6⟩ := hP
+  obtain ⟨m', hm', h7⟩ := (okAnd_iff _ _).1 h6
+  simp only [decide_eq_true_eq] at h7
+  have := H m m' _ 0 none 0 h1 h2 rfl (by omega) hm' (by decide) (by rw [h4]; simp)
+  rw [h5, h7] at this
+  cases this
+
+/-- a wide mask (2 bytes) at orders (0, 1): children 0, 1 of coarse pixel 0 valid -/
+def partialWide : Except Err MapObj :=
+  apiMakeEmpty 0 1 (.wide 2) none [] >>= fun e =>
+    apiUpdate e "replace" [0, 1] (some [.bytes [3, 1], .bytes [5, 1]]) false
+
+/-- (F36, wide masks) `and` of the valid children is `[3 & 5, 1 & 1] = [1, 1]`; `degrade`
+    answers the zero row -/
+theorem f36_wide_eval :
+    okAnd partialWide (fun m => decide m.Ok && decide (validChildren m 0 0 = [0, 1]) &&
+      decide (wideRed 2 "and" ((validChildren m 0 0).map m.abs) = .bytes [1, 1]) &&
+      okAnd (apiDegrade m 0 "and" none) (fun m' => decide (m'.abs 0 = .bytes [0, 0]))) = true := by
+  decide +kernel
+
+/-! the same three counterexamples as protocol histories (evaluated by the compiler) -/
+
+#guard ((runLines ["cfg m kind=plain dtype=i8 covord=0 spord=1 sentinel=0",
+    "upd m pix=0,1 vals=7,5", "deg m ord=0 red=and r=d"]).get? "d").map (·.abs 0) == some (.num 0 0)
+#guard ((runLines ["cfg m kind=plain dtype=i8 covord=0 spord=1",
+    "upd m pix=0,1 vals=7,5", "deg m ord=0 red=or r=d"]).get? "d").map (·.abs 0)
+      == some (.num (-9223372036854775801) 0)
+#guard ((runLines ["cfg m kind=wide maxbits=16 covord=0 spord=1",
+    "upd m pix=0,1 vals=b3.1,b5.1", "deg m ord=0 red=and r=d"]).get? "d").map (·.abs 0)
+      == some (.bytes [0, 0])
+
+end Witness
+
+/-! ### non-vacuity: the hypotheses are satisfiable and the conclusions say what they should -/
+
+section nonvacuity
+open WFApi (okAnd)
+
+/-- a float64 map at orders (0, 2): pixel 0 valid (value 7); coarse pixel 0 at order 1 has one
+    valid child, coarse pixels 1–3 lie in the same COVERED coverage pixel without valid children,
+    coarse pixel 4 is uncovered -/
+def exFlt : Except Err MapObj :=
+  apiMakeEmpty 0 2 (.plain (.flt 64)) none [] >>= fun e =>
+    apiUpdate e "replace" [0] (some [.num 7 0]) false
+
+-- `api_degrade_layout`, `api_degrade_float`, `api_degrade_masked`, `api_degrade_sum_prod`,
+-- `api_degrade_coverage`: mean / sum / prod of the one valid child is 7; a covered coarse pixel
+-- without valid children holds UNSEEN (mean), 0 (sum), 1 (prod); an uncovered one UNSEEN
+example : okAnd exFlt (fun m => decide m.Ok && decide (m.kind = .plain (.flt 64)) &&
+    decide (1 < m.spord) && decide (validChildren m 1 0 = [0]) && decide (validChildren m 1 1 = []) &&
+    live m 1 1 && !live m 1 4 &&
+    okAnd (apiDegrade m 1 "mean" none) (fun m' => decide m'.Ok && decide (m'.spord = 1) &&
+      decide (m'.abs 0 = .num 7 0) && decide (m'.abs 1 = .num unseen64 0) &&
+      decide (m'.abs 4 = .num unseen64 0) && covered m'.c m'.st 0 && !covered m'.c m'.st 1) &&
+    okAnd (apiDegrade m 1 "sum" none) (fun m' =>
+      decide (m'.abs 0 = .num 7 0) && decide (m'.abs 1 = .num 0 0) && m'.vc.valid (m'.abs 1) &&
+      decide (m'.abs 4 = .num unseen64 0)) &&
+    okAnd (apiDegrade m 1 "prod" none) (fun m' =>
+      decide (m'.abs 1 = .num 1 0) && decide (m'.abs 4 = .num unseen64 0))) = true := by
+  decide +kernel
+
+/-- a float64 map at orders (1, 2) with the valid pixels 0 and 17 -/
+def exBelow : Except Err MapObj :=
+  apiMakeEmpty 1 2 (.plain (.flt 64)) none [] >>= fun e =>
+    apiUpdate e "replace" [0, 17] (some [.num 7 0, .num 3 0]) false
+
+-- below the coverage resolution (`ordOut = 0 < covord = 1`): the result has coverage order 0,
+-- covers exactly the coarse pixels with a valid child, and `sum` leaves every other UNSEEN
+example : okAnd exBelow (fun m => decide m.Ok && decide (0 < m.covord) &&
+    decide (validChildren m 0 0 = [0]) && decide (validChildren m 0 1 = [17]) &&
+    okAnd (apiDegrade m 0 "sum" none) (fun m' => decide m'.Ok && decide (m'.covord = 0) &&
+      decide (m'.abs 0 = .num 7 0) && decide (m'.abs 1 = .num 3 0) &&
+      decide (m'.abs 2 = .num unseen64 0) &&
+      covered m'.c m'.st 0 && covered m'.c m'.st 1 && !covered m'.c m'.st 2)) = true := by
+  decide +kernel
+
+-- `api_degrade_kind` / `outKind_rules`: an int64 map becomes float64 with sentinel UNSEEN under
+-- `mean` (7, 5 ↦ 6) and stays int64 under `and`; `api_degrade_andor_int_partial`: every child
+-- valid ⇒ the `and` of the children; `api_degrade_same_order`: no validation at the same order
+example : okAnd (apiMakeEmpty 0 1 (.plain (.int 64 true)) none [] >>= fun e =>
+      apiUpdate e "replace" [0, 1, 2, 3] (some [.num 7 0, .num 5 0, .num 13 0, .num 15 0]) false)
+    (fun m => decide m.Ok &&
+      decide (∀ p ∈ childPix m 0 0, m.vc.valid (m.abs p) = true) &&
+      okAnd (apiDegrade m 0 "mean" none) (fun m' => decide (m'.kind = .plain (.flt 64)) &&
+        decide (m'.sent = .num unseen64 0) && decide (m'.abs 0 = .num 10 0)) &&
+      okAnd (apiDegrade m 0 "and" none) (fun m' => decide (m'.kind = m.kind) &&
+        decide (m'.abs 0 = .num 5 0)) &&
+      okAnd (apiDegrade m 1 "bogus" none) (fun m' => decide (m'.kind = m.kind))) = true := by
+  decide +kernel
+
+-- `api_degrade_or_zero_sentinel`: sentinel 0, children 6, 5, invalid, invalid ⇒ 6 | 5 = 7
+example : okAnd (Witness.partialInt (some (.num 0 0))) (fun m => decide m.Ok &&
+    decide (m.sent = .num 0 0) &&
+    okAnd (apiDegrade m 0 "or" none) (fun m' => decide (m'.abs 0 = .num 7 0))) = true := by
+  decide +kernel
+
+-- `api_degrade_wide` / `_partial`: `or` of the rows (all four children valid)
+example : okAnd (apiMakeEmpty 0 1 (.wide 2) none [] >>= fun e =>
+      apiUpdate e "replace" [0, 1, 2, 3] (some [.bytes [3, 1], .bytes [5, 1], .bytes [8, 0], .bytes [1, 2]]) false)
+    (fun m => decide m.Ok && decide (∀ p ∈ childPix m 0 0, m.vc.valid (m.abs p) = true) &&
+      okAnd (apiDegrade m 0 "or" none) (fun m' => decide (m'.kind = .wide 2) &&
+        decide (m'.abs 0 = .bytes [15, 3]) && decide (m'.abs 1 = .bytes [0, 0])) &&
+      okAnd (apiDegrade m 0 "and" none) (fun m' => decide (m'.abs 0 = .bytes [0, 0]))) = true := by
+  decide +kernel
+
+/-- a record map (int32, float32), primary 0, at orders (0, 1): children 0, 1 valid -/
+def exRec : Except Err MapObj :=
+  apiMakeEmpty 0 1 (.recd [.int 32 true, .flt 32] 0) none [] >>= fun e =>
+    apiUpdate e "replace" [0, 1] (some [.recd [(7, 0), (1, 1)], .recd [(5, 0), (3, 1)]]) false
+
+-- `api_degrade_recd` / `_masked`: fields become (float64, float32), each the mean over the two
+-- children with a valid primary; a coarse pixel without such a child holds the blank record
+example : okAnd exRec (fun m => decide m.Ok && decide (validChildren m 0 0 = [0, 1]) &&
+    decide (validChildren m 0 1 = []) &&
+    okAnd (apiDegrade m 0 "mean" none) (fun m' =>
+      decide (m'.kind = .recd [.flt 64, .flt 32] 0) && decide (m'.sent = .num unseen64 0) &&
+      decide (m'.abs 0 = .recd [(6, 0), (1, 0)]) &&
+      decide (m'.abs 1 = .recd [(unseen64, 0), (unseen32, 0)]) && !m'.vc.valid (m'.abs 1))) = true := by
+  decide +kernel
+
+-- the weighted mean (`List.mergeSort` does not reduce in the kernel: evaluated by the compiler).
+-- float32 map, float64 weights given in ANOTHER block order: float64 result (7·3 + 5·1)/4 = 13/2;
+-- total weight 0: poison when the weighted sum is not 0, UNSEEN when it is
+#guard okAnd (apiMakeEmpty 0 1 (.plain (.flt 32)) none [] >>= fun e =>
+      apiUpdate e "replace" [0, 1] (some [.num 7 0, .num 5 0]) false) (fun m =>
+    okAnd (apiMakeEmpty 0 1 (.plain (.flt 64)) none [] >>= fun e =>
+      apiUpdate e "replace" [1, 0] (some [.num 1 0, .num 3 0]) false) (fun wm =>
+    decide m.Ok && decide wm.Ok &&
+    okAnd (apiDegrade m 0 "wmean" (some wm)) (fun m' =>
+      decide (m'.kind = .plain (.flt 64)) && decide (m'.abs 0 = .num 13 1) &&
+      decide (m'.abs 1 = .num unseen64 0))))
+#guard okAnd (apiMakeEmpty 0 1 (.plain (.flt 64)) none [] >>= fun e =>
+      apiUpdate e "replace" [0, 1] (some [.num 7 0, .num 5 0]) false) (fun m =>
+    okAnd (apiMakeEmpty 0 1 (.plain (.flt 64)) none [] >>= fun e =>
+      apiUpdate e "replace" [1, 0] (some [.num 1 0, .num (-1) 0]) false) (fun wm =>
+    okAnd (apiDegrade m 0 "wmean" (some wm)) (fun m' => decide (m'.abs 0 = .poison))))
+-- below the coverage resolution the weight map may have another coverage order
+#guard okAnd exBelow (fun m =>
+    okAnd (apiMakeEmpty 2 2 (.plain (.flt 64)) none [] >>= fun e =>
+      apiUpdate e "replace" [17, 0] (some [.num 1 0, .num 3 0]) false) (fun wm =>
+    decide wm.Ok &&
+    okAnd (apiDegrade m 0 "wmean" (some wm)) (fun m' =>
+      decide (m'.abs 0 = .num 7 0) && decide (m'.abs 1 = .num 3 0) &&
+      decide (m'.abs 2 = .num unseen64 0))))
+
+-- errors: `ordOut > spord`; an unknown reduction; `and` on a float map; `wmean` without weights;
+-- a weight map that is not floating point (`api_degrade_error_range`, `api_degrade_rejects`,
+-- `api_degrade_weight_errors`)
+example : okAnd exFlt (fun m =>
+    (match apiDegrade m 3 "mean" none with | .error .value => true | _ => false) &&
+    (match apiDegrade m 1 "bogus" none with | .error .value => true | _ => false) &&
+    (match apiDegrade m 1 "and" none with | .error .value => true | _ => false) &&
+    (match apiDegrade m 1 "wmean" none with | .error .value => true | _ => false) &&
+    (match apiDegrade m 0 "wmean" (some { m with kind := .plain (.int 64 true) }) with
+      | .error .value => true | _ => false)) = true := by
+  decide +kernel
+
+/-! ### a case the model's guards do not catch (a defect of the MODEL, not of the library)
+
+The float path reads every cell through `Val.numD` (`api_degrade_float`: `(m.abs p).numD`), which
+is the value for `.num` / `.bool` cells only: a `.rat` / `.sqrtRat` cell — what an earlier `mean`,
+`std` or `wmean` degrade leaves when the result is not dyadic — is read as 0, and `cellsFitF64`
+lets such cells pass instead of answering `inexact`.  So a CHAINED degrade is wrong in the model
+(the library simply computes with the float): below, the mean map holds 4/3 at pixel 0; its `sum`
+degrade answers 0 (library: 1.333…), and degrading it below the coverage resolution raises
+ValueError (re-housing checks the cell type; the library succeeds).  The C07 generator never
+degrades a degraded map, so the harness does not meet this. -/
+
+/-- the `mean` degrade (order 3 → 2) of a float64 map with the values 1, 1, 2 under coarse pixel 0 -/
+def exThirds : Except Err MapObj :=
+  apiMakeEmpty 1 3 (.plain (.flt 64)) none [] >>= fun e =>
+    apiUpdate e "replace" [0, 1, 2] (some [.num 1 0, .num 1 0, .num 2 0]) false >>= fun m =>
+      apiDegrade m 2 "mean" none
+
+example : okAnd exThirds (fun d => decide d.Ok && decide (d.abs 0 = .rat 4 3) &&
+    cellsFitF64 d.st.sp && decide (validChildren d 1 0 = [0]) &&
+    okAnd (apiDegrade d 1 "sum" none) (fun f => decide (f.abs 0 = .num 0 0)) &&
+    (match apiDegrade d 0 "sum" none with | .error .value => true | _ => false)) = true := by
+  decide +kernel
+
+end nonvacuity
+
+end api
 end C07
 end HS
